@@ -359,8 +359,18 @@ class ShapeInterp:
             tg = st.targets[0]
             if isinstance(tg, ast.Name):
                 env[tg.id] = v
-            elif isinstance(tg, ast.Tuple) and isinstance(v, Pair) and len(v.items) == len(tg.elts):
+            elif isinstance(tg, ast.Tuple) and isinstance(v, Pair) and len(v.items) == len(tg.elts) and not any(isinstance(t, ast.Starred) for t in tg.elts):
                 for t, x in zip(tg.elts, v.items):
+                    env[t.id] = x
+            elif isinstance(tg, ast.Tuple) and isinstance(v, Pair) and sum(isinstance(t, ast.Starred) for t in tg.elts) == 1 and len(v.items) >= len(tg.elts) - 1:
+                k_ = next(i for i, t in enumerate(tg.elts) if isinstance(t, ast.Starred))
+                n_after = len(tg.elts) - k_ - 1
+                items = list(v.items)
+                for t, x in zip(tg.elts[:k_], items[:k_]):
+                    env[t.id] = x
+                mid = items[k_:len(items) - n_after]
+                env[tg.elts[k_].value.id] = Fixed(mid) if all(isinstance(x, Str) for x in mid) else Pair(*mid)
+                for t, x in zip(tg.elts[k_ + 1:], items[len(items) - n_after:]):
                     env[t.id] = x
             else:
                 raise AnalysisError(f"shape interpreter: assignment `{short(st)}` at {fi.loc(st)}")
@@ -832,6 +842,10 @@ class ShapeInterp:
                 for k in it.d:
                     items.append(self.tostr(self.ev(fi, e.elt, self.bind(g.target, ("key", k), env)), fi, e))
                 return SubSeq(items) if g.ifs else SubSeq(items, True)
+            if isinstance(it, Fixed) and self._as_symlist(it) is None and isinstance(g.target, ast.Name) and isinstance(e.elt, ast.Name) and e.elt.id == g.target.id \
+                    and all(isinstance(c, ast.Name) and c.id == g.target.id for c in g.ifs):
+                # the non-empty ones of a fixed list of texts, in order: any sub-list (an empty text drops out)
+                return SubSeq(list(it.items), nonempty=False, ordered=True) if g.ifs else it
             src_sl = self._as_symlist(it) if isinstance(it, (SymList, Fixed, Counter_)) else None
             if isinstance(it, AltVal):
                 return AltVal([self.ev(fi, e, {**env, "__alt__": v_}) if False else self._comp_over(fi, e, g, v_, env) for v_ in it.vals])
@@ -924,10 +938,18 @@ class ShapeInterp:
         f = e.func
         name = norm(f)
         r = self.repo.resolve_dotted(fi.module, f) if isinstance(f, (ast.Name, ast.Attribute)) and not (isinstance(f, ast.Name) and f.id in env) else None
+        if r and r[0] == "class":
+            # a record (NamedTuple / dataclass) of the serializer: its fields in order
+            args = [self.ev(fi, a, env) for a in e.args]
+            if not e.keywords:
+                return Pair(*args)
         if r and r[0] == "func":
             callee = r[1]
             args = [self.ev(fi, a, env) for a in e.args]
             ret = annotation_name(callee.node.returns) or ""
+            rr_ = self.repo.resolve(callee.module, ret.split(".")[-1]) if ret and ret.isidentifier() else None
+            if rr_ and rr_[0] == "class":
+                return self.run_value(callee, args)
             if ret == "str":
                 return self.run(callee, args)
             if "Graph" in ret:
